@@ -9,7 +9,7 @@ pub fn critical_texts(ev: Ev) -> Vec<String> {
     ];
     if ev.has_point() {
         t.extend([
-            "0.5", "(-0.5)", "1.5", "(-1.5)", "(-170.5)", "150.5", "(-150.5)", "26.5", "27.5", "66.5", "(-0.36787944117144233)", "(-0.36787944117144232)", "(-0.3678794411714423215955237702)",
+            "0.5", "(-0.5)", "1.5", "(-1.5)", "(-170.5)", "150.5", "(-150.5)", "26.5", "27.5", "66.5", "1.0", "2.0", "3.00", "(-1.0)", "(-2.00)", "10.0", "27.0", "0.0", "(1.5+1.5)", "(-0.36787944117144233)", "(-0.36787944117144232)", "(-0.3678794411714423215955237702)",
             "(-0.3678794411714423215955237701)", "(-0.3678794411714423215955237703)", "(-0.3678794411714423)", "(-0.36787944117144)", "(-0.367879441171443)", "0.36787944117144233",
             "1.5707963267948966", "(-1.5707963267948966)", "1.5707963267948966192313216916", "3.141592653589793", "3.1415926535897932384626433833", "6.283185307179586", "2.718281828459045",
             "2.7182818284590452353602874714", "0.9999999999999999", "1.0000000000000002", "(-0.9999999999999999)", "0.9999999999999999999999999999", "(-0.9999999999999999999999999999)",
